@@ -137,6 +137,7 @@ StepClauses(t, pre, ev) ==
            \cup Cl("Act_C04_FillOK", P(t)!Fills_OK(pre, I, c))
            \cup Cl("Act_C04_OnlyBarsFill", P(t)!OnlyBarsFill(pre, I, c))
            \cup Cl("Act_C04_Complete", P(t)!Complete_OK(pre, I, c))
+           \cup Cl("Act_C04_CompleteDust", P(t)!CompleteDust_OK(pre, I, c))
            \cup Cl("Act_C08_LiquidityCap", P(t)!LiquidityCap_OK(pre, I, c))
            \cup Cl("Act_C10_GrantedImpliesMargin", P(t)!Granted_OK(pre, I, c))
            \cup Cl("Act_C11_LoanClosure", P(t)!LoanClosure_OK(pre, I, c)))
